@@ -233,7 +233,9 @@ def _run_bound(case):
     if lb.shape != (N,):
         fails.append(Failure(f"bound[{kind}]:shape", f"bound has shape {lb.shape}, expected {(N,)}", **kf))
         return fails
-    for n in range(N):
+    # long paired batches (block-wise evaluation): the first, a middle and the last rows are judged against the oracle
+    rows = range(N) if N <= 8 else sorted({0, 1, N // 2, N - 3, N - 2, N - 1})
+    for n in rows:
         t = truth(kind, M, b, A, W, y[n], mus[n], Sigs[n])
         if t is None:
             fails.append(Failure("excluded:no_oracle", "Dk=2 with Dx>=2 and a non-smooth link"))
@@ -343,6 +345,9 @@ SUBS = [
         examples={"quick": 120, "thorough": 600}, shards={"quick": 4, "thorough": 8}, rule="Dy>=2 or Dk>=2"),
     Sub("bound", _pool, _strategy("bound"), _run_bound, _overlap, _labels,
         examples={"quick": 14, "thorough": 250}, shards={"quick": 16, "thorough": 28}, rule="some unit with |E h| <= 3 sd(h)"),
+    Sub("long_batch", lambda tier: [(1, 1, 1, 1, 600), (1, 2, 2, 1, 1100), (2, 1, 1, 1, 700)] + ([(1, 1, 2, 2, 2100)] if tier == "thorough" else []),
+        _strategy("bound"), _run_bound, _overlap, _labels,
+        examples={"quick": 4, "thorough": 12}, shards={"quick": 3, "thorough": 4}, rule="as bound; N = 600..2100 paired observations, 6 rows judged"),
     Sub("tightness", lambda tier: [p for p in _pool(tier) if p[3] == 1 or p[0] == 1], _strategy("tight"), _run_tight, _overlap, _labels,
         examples={"quick": 5, "thorough": 80}, shards={"quick": 14, "thorough": 24}, rule="some unit with |E h| <= 3 sd(h)"),
 ]
